@@ -926,6 +926,13 @@ func (s *Stage) finalizeHandler() {
 			s.logDebug("Already finalized or not ready:", f.name)
 			continue
 		}
+		if cached := s.fromCache(f.path); cached != f {
+			// A newer version of this file took its place: don't let this one
+			// (e.g. via its retry timer) back onto the wait list, where it
+			// would push the newer one out
+			s.logDebug("Ignoring superseded (finalize chain):", f.name)
+			continue
+		}
 		if s.isFileReady(f) {
 			s.finalize(f)
 		}
@@ -1212,6 +1219,10 @@ func (s *Stage) toWait(prevPath string, next *finalFile, howLong time.Duration) 
 				// Same file: keep the object handed in now.  It may stand for a
 				// newer version than the one parked before, and only the one
 				// that is current in the cache gets finalized on release.
+				if waiting != next && waiting.wait != nil {
+					waiting.wait.Stop()
+					waiting.wait = nil
+				}
 				files[i] = next
 				return
 			}
